@@ -57,6 +57,19 @@ def find_witness(pid, obligation):
             if w.get("kind") == "ds_ops":
                 w["fn"] = fn.split("::")[1]
                 return w
+        unit = obligation.get("unit", "")
+        if unit.startswith("lang_"):
+            code = unit[5:]
+            rows_path = os.path.join(VERIF, "specs", "templates", f"{code}_rows.json")
+            ok, err = build_witness()
+            if ok and os.path.exists(rows_path):
+                for row in json.load(open(rows_path)):
+                    w = {"kind": "call", "fn": "text2digits", "lang": code, "text": row["word"],
+                         "expect": {"equals": "Ok(%s)" % json.dumps(row["expect"], ensure_ascii=False)}}
+                    p = subprocess.run([wbin("t2n_call"), json.dumps(w)], capture_output=True, text=True, timeout=20)
+                    if p.returncode == 1:
+                        w["what"] = p.stdout.strip().replace("\n", " | ")
+                        return w
         if fn == "get_interpreter_for":
             ok, err = build_witness()
             if ok:
